@@ -455,6 +455,9 @@ def run(ctx):
                   'AuthConfiguration.id is the typed `id` value (a fixed default when absent)',
                   key=('B2', 'AuthConfiguration', 'id'), site=site)
     check_payload_id(ctx)
+    # ... and the PayloadID object keeps the type and the octets it is handed
+    from .c05 import ctor_keeps_values
+    ctor_keeps_values(ctx, 'B2', only=('PayloadID',))
     check_ip_loaders(ctx)
     check_crypto_algs(ctx)
     check_tables(ctx)
@@ -622,7 +625,7 @@ def check_ip_loaders(ctx):
               key=('B2', '_load_ip_address', 'value'), site=ctx.site(fa, fa.node), detail={'returns': [tq.text(t, 200) for t in rets]})
 
 
-def check_crypto_algs(ctx):
+def check_crypto_algs(ctx, rule='B2'):
     fi = ctx.func(CLS + '._load_crypto_algs')
     ps = fi.call_params()
     ctx.require(len(ps) == 3, 'anchor vanished: _load_crypto_algs(key, names, name_to_transform)')
@@ -632,15 +635,15 @@ def check_crypto_algs(ctx):
     want = ('list', (('each', 0, names, (), ('call', CLS + '._load_from_dict', ('param', 'self'),
                                              (('key', ('call', 'builtins.str', NONE, (('#0', ('elem', names, 0)),))),
                                               ('cnf_dict', ('param', ps[2]))))),))
-    ctx.check(len(rets) == 1 and rets[0][1] == want and len(A.exit_envs) == 1, 'B2',
+    ctx.check(len(rets) == 1 and rets[0][1] == want and len(A.exit_envs) == 1, rule,
               'algorithm lists are translated name by name, in the listed order, without filtering or sorting',
-              key=('B2', '_load_crypto_algs', 'order'), site=ctx.site(fi, fi.node), detail={'returns': [tq.text(t, 300) for _, t in rets]})
+              key=(rule, '_load_crypto_algs', 'order'), site=ctx.site(fi, fi.node), detail={'returns': [tq.text(t, 300) for _, t in rets]})
     is_list = [A.expr('type(%s) is list' % ps[1]), A.expr('isinstance(%s, list)' % ps[1])]
     ok = bool(rets) and any(tq.entails(rets[0][0], g) is True for g in is_list)
     bad = [(rpc, rt) for rpc, rt, _ in A.raises]
     ok = ok and bool(bad) and all(tq.is_call(rt, 'new configuration.ConfigurationError') for _, rt in bad)
-    ctx.check(ok, 'B2', 'a value that is not a list is rejected (ConfigurationError) before it is iterated',
-              key=('B2', '_load_crypto_algs', 'guard'), site=ctx.site(fi, fi.node))
+    ctx.check(ok, rule, 'a value that is not a list is rejected (ConfigurationError) before it is iterated',
+              key=(rule, '_load_crypto_algs', 'guard'), site=ctx.site(fi, fi.node))
     lfd = ctx.func(CLS + '._load_from_dict')
     L = ctx.sval(lfd)
     ps = lfd.call_params()
@@ -650,8 +653,8 @@ def check_crypto_algs(ctx):
     bad = [(rpc, rt) for rpc, rt, _ in L.raises]
     ok = ok and len(bad) == 1 and tq.is_call(bad[0][1], 'new configuration.ConfigurationError') and \
         common.lookup_side(bad[0][0], ('param', ps[0])) == 'miss'
-    ctx.check(ok, 'B2', 'an unknown name is refused with ConfigurationError and a known one returns its table entry',
-              key=('B2', '_load_from_dict'), site=ctx.site(lfd, lfd.node))
+    ctx.check(ok, rule, 'an unknown name is refused with ConfigurationError and a known one returns its table entry',
+              key=(rule, '_load_from_dict'), site=ctx.site(lfd, lfd.node))
 
 
 def check_tables(ctx):
